@@ -38,7 +38,7 @@ TRUSTED = [
     "os.path.splitext modelled by posixpath.splitext; mimetypes.guess_type modelled as an arbitrary function returning (mime|None, None)",
     "the abstract evaluator in sa/engine/absinterp.py (refuses constructs outside its subset)",
 ]
-FLOORS = {"C07-TABLES": 100, "C07-SHAPE": 2000, "C07-DOC": 50, "C07-USE": 4, "C07-ATT": 4}
+FLOORS = {"C07-TABLES": 100, "C07-SHAPE": 2000, "C07-DOC": 50, "C07-USE": 4, "C07-ATT": 4, "C07-MEMO": 2}
 
 # README section -> registry targets that section may reach (function names)
 DOC_SECTIONS = {
@@ -466,4 +466,22 @@ def rule_att(ctx: Ctx) -> RuleReport:
     return rep
 
 
-RULES = [rule_tables, rule_shape, rule_doc, rule_use, rule_att]
+def rule_memo(ctx: Ctx) -> RuleReport:
+    """is_supported_file and get_extractor must agree on every name at every moment: neither may remember an earlier answer of the MIME
+    fallback that the other one re-computes (= the memoisation clause of C06-HOST, restricted to the router)."""
+    from sa.rules.c06 import HOST_DATABASES, memoised_host_lookups
+
+    rep = RuleReport("C07-MEMO", "no routing function that consults the MIME database of the host is memoised: is_supported_file and get_extractor answer from the same state")
+    ROUTER = "sharepoint2text/parsing/router.py"
+    hits = [(fi, d, c) for fi, d, c, _direct in memoised_host_lookups(ctx) if fi.module.rel == ROUTER]
+    for fi, deco, c in hits:
+        rep.fail(Finding("C07-MEMO", ROUTER, fi.qual, f"memoised: {dotted(c.func)}", f"{fi.qual} is memoised although it asks `{short(c, 40)}` ({HOST_DATABASES[dotted(c.func)]}); its sibling asks the live database, so after mimetypes.add_type() / init() (any library may call them) the two disagree on names such as 'scan.zzz' or 'backup.taz'", line=fi.node.lineno))
+    for name in ("is_supported_file", "get_extractor"):
+        f = ctx.p.func(ROUTER, name)
+        rep.unit(f.key)
+        if not any(fi is f for fi, _, _ in hits):
+            rep.ok({"router_function": name, "memoised": False})
+    return rep
+
+
+RULES = [rule_tables, rule_shape, rule_doc, rule_use, rule_att, rule_memo]
